@@ -26,11 +26,14 @@ func main() {
 	out := flag.String("out", "", "output directory")
 	only := flag.String("only", "", "unit|e2e (debug)")
 	flag.Parse()
+	if e := os.Getenv("HC03_ONLY"); e != "" && *only == "" { // debugging / mutation runs: restrict to one part
+		*only = e
+	}
 	if *out == "" {
 		fmt.Fprintln(os.Stderr, "hC03: -out required")
 		os.Exit(2)
 	}
-	w, err := casefile.New(*out, "C03", "From Coq Require Import ZArith.\nFrom VLib Require Import CaseLib.\nFrom C03 Require Import Model CaseDefs.\nLocal Open Scope N_scope.", 150)
+	w, err := casefile.New(*out, "C03", "From Coq Require Import ZArith.\nFrom VLib Require Import CaseLib.\nFrom C03 Require Import Model CaseDefs.\nLocal Open Scope N_scope.", 300)
 	if err != nil {
 		fmt.Fprintln(os.Stderr, err)
 		os.Exit(2)
